@@ -40,7 +40,7 @@ def register(R, P):
     for q in ("ReferenceImpl.has_interface", "Updater.get_relative_interface", "RefContainer.notify"):
         R.contracts[q] = R.contracts.pop(q)
 
-    PRE = ["GWF(self.model.tracegraph)", "RGWF(self.model.refgraph)", "HELD(self.model.tracegraph)", "SEP()",
+    PRE = ["GWF(self.model.tracegraph)", "RGWF(self.model.refgraph)", "HELD(self.model.tracegraph)", "OWN(self.model)", "SEP()",
            "all(c.data is not d.input_keys for c in every('CellsImpl') for d in every('CellsImpl'))",
            "self.model.tracegraph is not self.model.refgraph", "len(bases) >= 1"]
     B0 = "bases[0]"
